@@ -118,7 +118,7 @@ class C22(Property):
         dep = "remA" if kind.startswith("remA") else "remB"
         return ExecutionLocation(name="loc" + kind[-1], deployment=dep, local=False)
 
-    def one_transfer(self, ctx: Ctx, case: dict) -> dict:
+    def one_transfer(self, ctx: Ctx, case: dict, bound: float = 30) -> dict:
         """build the tree of `case`, run transfer_data, return the observation"""
         import random
         rng = random.Random(case["seed"])
@@ -167,7 +167,7 @@ class C22(Property):
                     except Exception:  # noqa: BLE001
                         pass
         try:
-            run_watchdog(go, 30)
+            run_watchdog(go, bound)
             obs["status"] = "ok"
         except Hang as e:
             obs["status"] = "hang"
@@ -439,6 +439,10 @@ class C22(Property):
                 ctx.extra["incomplete"] = True
                 break
             obs = self.one_transfer(ctx, case)
+            if obs["status"] == "hang" and is_safe(obs["src"]) and is_safe(obs["dst"]):
+                # no shell-special character is involved: confirm the time-out alone with a much larger bound before reporting it
+                ctx.count("slow-transfer-rerun-with-larger-bound")
+                obs = self.one_transfer(ctx, case, bound=240)
             self.judge(ctx, case, obs)
         all_got = ctx.lean("Drivers/C22.lean", lines + self.reg_lines)
         got = all_got[:len(lines)]
